@@ -26,7 +26,7 @@ class C11(Check):
                "names longer than 255 octets and TSIG RDATA above 65535 octets are outside the correspondence"]
     trusted = ["label-list view of names: CanonicalName on a presentation string equals lower-casing A-Z in the labels "
                "(exact for the strings UnpackDomainName produces)"]
-    shard_size = 250
+    shard_size = 300
 
     def nontrivial(self, c):
         return len(c["args"][0]) > 24
